@@ -87,7 +87,11 @@ namespace glm
 		detail::float_t<float> const a(x);
 		detail::float_t<float> const b(y);
 
-		return abs(a.i - b.i);
+		// sign-magnitude patterns to a monotone integer scale (negative values count downwards from zero, -0 == +0)
+		int const ia = a.i < 0 ? std::numeric_limits<int>::min() - a.i : a.i;
+		int const ib = b.i < 0 ? std::numeric_limits<int>::min() - b.i : b.i;
+
+		return abs(ia - ib);
 	}
 
 	GLM_FUNC_QUALIFIER int64 float_distance(double x, double y)
@@ -95,7 +99,11 @@ namespace glm
 		detail::float_t<double> const a(x);
 		detail::float_t<double> const b(y);
 
-		return abs(a.i - b.i);
+		// sign-magnitude patterns to a monotone integer scale (negative values count downwards from zero, -0 == +0)
+		int64 const ia = a.i < 0 ? std::numeric_limits<int64>::min() - a.i : a.i;
+		int64 const ib = b.i < 0 ? std::numeric_limits<int64>::min() - b.i : b.i;
+
+		return abs(ia - ib);
 	}
 
 	template<length_t L, typename T, qualifier Q>
